@@ -970,6 +970,133 @@ func runExportPin(c *fw.Ctx, cfg c06cfg) {
 	c.Obs("export_pins_checked", 1)
 }
 
+// stageStore parks ONE caller at the next reverse iterator over the node key space (stage 1) or at the
+// next Has of a node key (stage 2); the stage is consumed by the caller that parks.
+type stageStore struct {
+	corestore.KVStoreWithBatch
+	stage   atomic.Int32
+	parked  chan struct{}
+	release chan struct{}
+}
+
+func (p *stageStore) park(want int32) {
+	if p.stage.CompareAndSwap(want, 0) {
+		p.parked <- struct{}{}
+		<-p.release
+	}
+}
+
+func (p *stageStore) ReverseIterator(start, end []byte) (corestore.Iterator, error) {
+	if len(start) > 0 && start[0] == 's' {
+		p.park(1)
+	}
+	return p.KVStoreWithBatch.ReverseIterator(start, end)
+}
+
+func (p *stageStore) Has(k []byte) (bool, error) {
+	has, err := p.KVStoreWithBatch.Has(k)
+	if len(k) > 0 && k[0] == 's' {
+		p.park(2)
+	}
+	return has, err
+}
+
+// runLatestDiscoveryOverlap: a reader opens a version on a handle that has no latest version cached
+// yet (empty store). It is parked when it starts to look for the latest version in the store, the
+// writer commits version 1, the reader goes on, finds version 1 and is parked again inside its
+// existence probe; the writer commits versions 2 and 3; the reader is released. Afterwards every
+// committed version must open and read exactly on that handle (what the reader found in the store
+// must not take the range back). If the reader does not reach a park point (the code looks for the
+// version differently) nothing is judged and that is counted.
+func runLatestDiscoveryOverlap(c *fw.Ctx, cfg c06cfg) {
+	st := &stageStore{KVStoreWithBatch: dbm.NewMemDB(), parked: make(chan struct{}), release: make(chan struct{})}
+	t := iavl.NewMutableTree(st, cfg.cache, !cfg.fast, iavl.NewNopLogger())
+	if _, err := t.Load(); err != nil {
+		c.Violate(0, "conc|discovery|load", "%v", err)
+		return
+	}
+	snaps := map[int64]model.Snap{}
+	cur := model.Snap{}
+	commit := func(v int64) bool {
+		for i := 0; i < 3; i++ {
+			k, val := fmt.Sprintf("d%d", (int(v)+i)%5), fmt.Sprintf("v%d-%d", v, i)
+			t.Set([]byte(k), []byte(val))
+			cur[k] = val
+		}
+		if _, ver, err := t.SaveVersion(); err != nil || ver != v {
+			c.Violate(int(v), "conc|discovery|save-error", "SaveVersion = (%d,%v), want %d", ver, err, v)
+			return false
+		}
+		snaps[v] = cur.Clone()
+		return true
+	}
+	waitParked := func() bool {
+		select {
+		case <-st.parked:
+			return true
+		case <-time.After(5 * time.Second):
+			return false
+		}
+	}
+	done := make(chan error, 1)
+	st.stage.Store(1)
+	go func() {
+		_, err := t.GetImmutable(1)
+		done <- err
+	}()
+	if !waitParked() {
+		st.stage.Store(0)
+		<-done
+		c.Obs("discovery_overlap_not_reached", 1)
+		return
+	}
+	ok := commit(1)
+	st.stage.Store(2)
+	st.release <- struct{}{}
+	second := ok && waitParked()
+	if !second {
+		st.stage.Store(0)
+	}
+	if ok {
+		ok = commit(2) && commit(3)
+	}
+	if second {
+		st.release <- struct{}{}
+	}
+	<-done // (whether version 1 opened for this reader is not judged: its commit overlapped the call)
+	if !ok {
+		return
+	}
+	if !second {
+		c.Obs("discovery_overlap_not_reached", 1)
+		return
+	}
+	c.Obs("discovery_overlaps", 1)
+	for v := int64(1); v <= 3; v++ {
+		it, err := t.GetImmutable(v)
+		if err != nil {
+			c.Violate(int(v), "conc|discovery|getimmutable", "after a reader's search for the latest version overlapped the commits of versions 1-3, GetImmutable(%d) of a committed, undeleted version fails: %v (AvailableVersions()=%v) {%s}", v, err, t.AvailableVersions(), cfg)
+			return
+		}
+		var gk []string
+		itr, err := it.Iterator(nil, nil, true)
+		if err == nil {
+			for ; itr.Valid(); itr.Next() {
+				gk = append(gk, string(itr.Key())+"="+string(itr.Value()))
+			}
+			itr.Close()
+		}
+		var want []string
+		for _, k := range snaps[v].Keys() {
+			want = append(want, k+"="+snaps[v][k])
+		}
+		if err != nil || fmt.Sprint(gk) != fmt.Sprint(want) {
+			c.Violate(int(v), "conc|discovery|iterator", "after a reader's search for the latest version overlapped the commits of versions 1-3, Iterator of version %d yields %v (err %v), committed contents are %v {%s}", v, gk, err, want, cfg)
+			return
+		}
+	}
+}
+
 // pauseStore parks one reader inside a storage Get (after the value was read) until released:
 // the storage seam is the only place where a schedule "reader has read the old entry, writer
 // commits, reader continues" can be forced without touching iavl.
@@ -1351,7 +1478,7 @@ func init() {
 		},
 		CaseTimeout: 240e9,
 		Rule: "built with the Go race detector. Case kinds: (stress) 13 configurations {node cache 0/3/8/100/10000} x {fast index on/off} x {sync pruning, background pruning with the SetCommitting/UnsetCommitting protocol} x {MemDB, MemDB with unsynchronised yields around storage calls, GoLevelDB, PrefixDB (prefix slice with spare capacity) over a yielding MemDB; the yielding store also lingers after every batch write; one configuration runs with the index disabled over a database written with it enabled} x readers in {2,8,16}, repeated 4x (quick) / 100x (thorough): one writer (Set/Remove/SaveVersion/DeleteVersionsTo of versions nobody reads) and N readers that obtain committed versions with GetImmutable and run Get, GetWithIndex, Has, Iterator, IterateRange, GetProof (verified against the commit hash), Export, Hash, GetByIndex - every result compared with the snapshot published at commit; 2 scout goroutines open arbitrary version numbers (a version that opens while its commit is still in progress must already read exactly its contents) and the commit/prune/open history is checked with porcupine against the per-version model uncommitted->committed->deleted; background pruning must reach its target within a bound after the writer stops (otherwise inconclusive). " +
-			"In the stress cases the verif yield points inside pruning and cloning only delay (Gosched + 30us, no synchronisation, hence no happens-before edge) to widen the windows between protocol steps. (hook) oracle mode: the writer is parked at a verif yield point (in SaveVersion when everything is queued and nothing written; in SaveVersion after the batch commit, before SaveVersion returns; between per-version steps of DeleteVersionsTo; between the committing check and the lock in pruning; in Node.clone) and every reader operation type runs on every published version while it is parked - hook points x reader operations is enumerated. (pause) a reader of the latest version is parked INSIDE its storage read (fast-index entry or node, via a pausing storage wrapper on a freshly opened handle with cold caches) while the writer commits a change of the same key; the reader must return its version's value and afterwards every version must read exactly; every third round uses the \"between\" schedule on a freshly opened handle instead: writer changes k (uncommitted), a reader goroutine reads k in the latest committed version, writer commits, every version must read exactly. (pin) a version with an open Exporter (plus a second, double-closed export of it; half of the cases open the export while the version is still the latest one and commit two more versions) cannot be deleted from another goroutine, its stream is R's complete post-order stream, and the deletion succeeds after Close. " +
+			"In the stress cases the verif yield points inside pruning and cloning only delay (Gosched + 30us, no synchronisation, hence no happens-before edge) to widen the windows between protocol steps. (hook) oracle mode: the writer is parked at a verif yield point (in SaveVersion when everything is queued and nothing written; in SaveVersion after the batch commit, before SaveVersion returns; between per-version steps of DeleteVersionsTo; between the committing check and the lock in pruning; in Node.clone) and every reader operation type runs on every published version while it is parked - hook points x reader operations is enumerated. (pause) a reader of the latest version is parked INSIDE its storage read (fast-index entry or node, via a pausing storage wrapper on a freshly opened handle with cold caches) while the writer commits a change of the same key; the reader must return its version's value and afterwards every version must read exactly; every third round uses the \"between\" schedule on a freshly opened handle instead: writer changes k (uncommitted), a reader goroutine reads k in the latest committed version, writer commits, every version must read exactly. Every pause case begins with a staged overlap on an EMPTY store: a reader opening a version is parked when it starts to look for the latest version in the store, version 1 is committed, the reader finds it and is parked again inside its existence probe, versions 2 and 3 are committed, the reader is released: every committed version must then open and iterate exactly on that handle. (pin) a version with an open Exporter (plus a second, double-closed export of it; half of the cases open the export while the version is still the latest one and commit two more versions) cannot be deleted from another goroutine, its stream is R's complete post-order stream, and the deletion succeeds after Close. " +
 			"(canary) one case commits a deliberate unsynchronised write pair inside the harness; its report must appear in the collected logs, otherwise the run is inconclusive. All race-detector reports of all workers are collected from the race logs, deduplicated by the pair of first iavl frames and reported if both accesses are in iavl. distinct = hash(kind, configuration, repetition); non-trivial = >=20 commits overlapped by >=100 reader operations, or a parked overlap, or a pin check.",
 		Assumptions: []string{"only schedules that happened are judged; race reports are schedule dependent", "the harness' registry (which versions are published / in use) is the monitor's own mutex-guarded state", "readers only read versions the writer has not asked to delete (as the property states)"},
 		WorkerEnv: func(work string, shard int) []string {
@@ -1374,6 +1501,7 @@ func init() {
 				runExportPin(c, cfg)
 				c.Res.Nontrivial = true
 			case "pause":
+				runLatestDiscoveryOverlap(c, cfg)
 				runSeamPause(c, cfg)
 				c.Res.Nontrivial = c.Res.Obs["pause_overlaps"] > 0
 			case "canary":
